@@ -99,7 +99,7 @@ func runC20(c *ev.Ctx) {
 		"(e) lossy-only options must not change lossless bytes; (f) EmulateJpegSize changes nothing, TargetPSNR changes nothing when TargetSize is set; (g) OptionsForPreset(PresetDefault,q)==defaults; (h) boundary image dimensions; " +
 		"(i) extreme ints in every int field: error or valid file, never a panic. distinct = (kind, mutated field/value or sentinel subset, codec, alpha)"
 	n := c.N(10000, 1500000)
-	kinds := []string{"illegal", "legal", "sentinel", "sentinel", "nil", "lossyonly", "jpeg", "preset", "dims", "extreme", "illegal", "sentinel", "psnr"}
+	kinds := []string{"illegal", "legal", "sentinel", "sentinel", "nil", "lossyonly", "jpeg", "preset", "dims", "extreme", "illegal", "sentinel", "psnr", "pinned"}
 	var cases []ev.Case
 	for i := 0; i < n; i++ {
 		cc := c20Case{Kind: kinds[i%len(kinds)], Sub: i / len(kinds)}
@@ -277,6 +277,21 @@ func c20One(c *ev.Ctx, cs ev.Case) {
 		c.Distinct(fmt.Sprintf("psnr|ts%d|psnr%g|M%d|pass%d", a.TargetSize, a.TargetPSNR, a.Method, a.Pass))
 		m = mm
 		same("TargetPSNR with TargetSize set", a, &b, map[string]string{"kind": "psnr"})
+	case "pinned":
+		// QMin == QMax (both documented as literal quality values in 0..100, only QMax < 0 is a sentinel) leaves the
+		// size / PSNR search no freedom: with Quality at the same value every pass runs at that quality, so the value
+		// of the target cannot matter.
+		q := pickI(r, 0, 0, 1, 30, 50, 99, 100)
+		mm := img.Gen(r, pickS(r, "photo", "noise", "tiles", "gradient"), pickS(r, "opaque", "opaque", "gradient"), 24+r.Intn(80), 24+r.Intn(80))
+		a := legalOpts(r, false)
+		a.Quality, a.QMin, a.QMax = float32(q), q, q
+		a.TargetPSNR = 0
+		a.TargetSize = pickI(r, 100, 400, 3000)
+		b := *a
+		b.TargetSize = pickI(r, 1<<20, 1<<24, 50000)
+		c.Distinct(fmt.Sprintf("pinned|q%d|M%d|pass%d", q, a.Method, a.Pass))
+		m = mm
+		same("QMin=QMax=Quality pinned, TargetSize varied", a, &b, map[string]string{"kind": "pinned", "q": fmt.Sprint(q)})
 	case "preset":
 		q := pickF(r, 0, 30, 75, 100)
 		a := webp.OptionsForPreset(webp.PresetDefault, q)
